@@ -506,8 +506,17 @@ where A::Llr: Num, A::VarMessage: Num, A::CheckMessage: Num, A::VarLlr: Num {
                 rng.shuffle(&mut dests);
                 dests.truncate(d);
                 let s = [1.0, range / 4.0, range / 2.0][i % 3];
-                let olds: Vec<(usize, f64)> = dests.iter().map(|&t| (t, if i % 5 == 0 { 0.0 } else { (rng.gauss() * s * 0.5).clamp(-range / 2.0, range / 2.0) })).collect();
-                let vars: Vec<f64> = (0..nv).map(|_| (rng.gauss() * s).clamp(-range / 2.0, range / 2.0)).collect();
+                let (olds, vars): (Vec<(usize, f64)>, Vec<f64>) = if i % 7 == 3 {
+                    // exact TIES among the extrinsic magnitudes (hard-decision-like inputs): half-integers, exactly representable, so
+                    // |var - old| repeats; the layered rule must still equal the flooding rule on the extrinsics edge by edge
+                    let lv = [0.5, 1.0, 1.5, 2.0, 3.0];
+                    let vars: Vec<f64> = (0..nv).map(|_| *rng.pick(&lv) * if rng.coin(1, 2) { -1.0 } else { 1.0 } + *rng.pick(&[0.0, 0.5, 1.0])).collect();
+                    let olds: Vec<(usize, f64)> = dests.iter().map(|&t| (t, *rng.pick(&[0.0, 0.5, 1.0]))).collect();
+                    (olds, vars)
+                } else {
+                    (dests.iter().map(|&t| (t, if i % 5 == 0 { 0.0 } else { (rng.gauss() * s * 0.5).clamp(-range / 2.0, range / 2.0) })).collect(),
+                     (0..nv).map(|_| (rng.gauss() * s).clamp(-range / 2.0, range / 2.0)).collect())
+                };
                 ev_layerf(out, name, ar, &olds, &vars);
             }
         }
